@@ -41,8 +41,10 @@ import (
 //   The interleaving is the runtime's, so this mode is TRACE VALIDATION: every chunk carries its
 //   op number, IsProcessed logs it (I<id>#<op>:<b>), the driver reads the sequence of routine
 //   runs off the log (a run that sweeps a chunk never seen before is that chunk's run, any other
-//   run is a ticker run), replays the model on that event sequence and compares the logs.  At
-//   most 2*parallel chunks per history, so no notification is ever dropped.
+//   run is a ticker run), replays the model on that event sequence and compares the logs.  A peer
+//   may over-deliver: a notification arriving while 2*parallel chunks are unprocessed is dropped by
+//   loop() (its chunk never shows up in a sweep); the driver checks with the model that the
+//   buffer was indeed full at some moment in between.
 
 func c18PeerName(p uint64) string {
 	if p == 0 {
@@ -314,9 +316,6 @@ func c18RunTickerOnce(header []string, ops [][]string) []string {
 		}
 		switch op[0] {
 		case "c":
-			if nchunks >= 2*par {
-				continue // never more than the channel + table can hold: nothing is dropped
-			}
 			id, _ := strconv.ParseUint(op[1], 10, 64)
 			_ = d.NotifyChunkReceived(c18Chunk{nchunks, id})
 			nchunks++
@@ -339,6 +338,15 @@ func c18RunTickerOnce(header []string, ops [][]string) []string {
 	mu.Lock()
 	defer mu.Unlock()
 	vu.StatN("ticker_runs", run+1)
+	seenOps := map[string]bool{}
+	for _, t := range obs {
+		if i := strings.IndexByte(t, '#'); i >= 0 && t[0] == 'I' {
+			seenOps[t[i+1:strings.IndexByte(t, ':')]] = true
+		}
+	}
+	if nchunks > len(seenOps) {
+		vu.StatN("ticker_notifications_never_swept", nchunks-len(seenOps))
+	}
 	return append(obs, "E")
 }
 
@@ -735,10 +743,18 @@ func c18GenPeer(r *rand.Rand, emit func(...string)) {
 func c18GenTicker(r *rand.Rand, emit func(...string)) {
 	par := 1 + r.Intn(4)
 	nruns := 64
+	// burst: the peer over-delivers while the application processes nothing, so that more than
+	// 2*parallel chunks are unprocessed and notifications are dropped; later the application
+	// catches up and ticker runs follow
+	burst := r.Intn(3) == 0
+	stall := 0
+	if burst {
+		stall = 2*par + 2 + r.Intn(6)
+	}
 	in := []string{"T", strconv.Itoa(par), strconv.Itoa(nruns)}
 	for i := 0; i < nruns; i++ {
 		done := 0 // Done() need not be monotone
-		if r.Intn(20) == 0 {
+		if r.Intn(20) == 0 && i >= stall+4 {
 			done = 1
 		}
 		susp := 0
@@ -754,20 +770,31 @@ func c18GenTicker(r *rand.Rand, emit func(...string)) {
 		default:
 			mask = uint64(r.Intn(256))
 		}
+		if i < stall && r.Intn(6) != 0 {
+			mask = 0
+		}
 		in = append(in, strconv.Itoa(done), strconv.Itoa(susp), strconv.FormatUint(mask, 10))
 	}
 	nc := 1 + r.Intn(2*par)
+	if burst {
+		nc = 2*par + 1 + r.Intn(2*par+3)
+	}
 	xat := -1
 	if r.Intn(5) == 0 {
 		xat = r.Intn(nc)
 	}
 	for i := 0; i < nc; i++ {
 		in = append(in, ";", "c", strconv.Itoa(r.Intn(8)))
-		if r.Intn(2) == 0 {
+		if (!burst && r.Intn(2) == 0) || (burst && r.Intn(6) == 0) {
 			in = append(in, ";", "w")
 		}
 		if i == xat {
 			in = append(in, ";", "x", ";", "w")
+		}
+	}
+	if burst {
+		for i := 0; i < 3+r.Intn(4); i++ {
+			in = append(in, ";", "w")
 		}
 	}
 	emit(in...)
@@ -778,6 +805,23 @@ func c18Gen(r *rand.Rand, n int, tier string, emit func(...string)) {
 	emit("B", ";", "r", "1", ";", "t", "0", "0", ";", "u", "1", "0")
 	// ... and of the peer leecher without the d.done guard: done at the first run, not done later
 	emit("T", "1", "4", "1", "0", "0", "0", "0", "0", "0", "0", "0", "0", "0", "0", ";", "c", "1", ";", "w", ";", "w")
+	// an over-delivering peer: parallelism 2, six chunks while nothing is processed (the buffer
+	// holds 4, two notifications are dropped), then everything is processed and ticks follow
+	{
+		in := []string{"T", "2", "40"}
+		for i := 0; i < 40; i++ {
+			m := "0"
+			if i >= 8 {
+				m = "255"
+			}
+			in = append(in, "0", "0", m)
+		}
+		for i := 0; i < 6; i++ {
+			in = append(in, ";", "c", strconv.Itoa(i))
+		}
+		in = append(in, ";", "w", ";", "w", ";", "w", ";", "w", ";", "w", ";", "w")
+		emit(in...)
+	}
 	for i := 0; i < n; i++ {
 		if i%2 == 0 {
 			c18GenBase(r, emit)
